@@ -125,7 +125,7 @@ NcCases == { Case("nc", [Base EXCEPT !.isCa = CaU, !.nc = [k |-> "some", perm |-
                   TRUE, "ed25519", "ed25519", Kid("sha256"), "keypair") : st \in SubtreeVariants, side \in {"perm", "excl"} }
 
 DnKinds == {"utf8", "printable", "ia5", "teletex", "bmp", "universal"}
-DnTypes == {"2.5.4.6", "2.5.4.7", "2.5.4.8", "2.5.4.10", "2.5.4.11", "2.5.4.3", "1.2.3.4.5.6"}
+DnTypes == {"2.5.4.6", "2.5.4.7", "2.5.4.8", "2.5.4.10", "2.5.4.11", "2.5.4.3", "1.2.3.4.5.6", "2.999.1.2", "2.40.3", "0.9.2342.19200300.100.1.25"}
 DnCases == { Case("dn", [Base EXCEPT !.dn = <<E(ty, kind, "$v")>>], self, "ed25519", "ed25519", Kid("sha256"), "keypair") :
                ty \in DnTypes, kind \in DnKinds, self \in Bool }
            \cup { Case("dn", [Base EXCEPT !.dn = DnMulti], self, "ed25519", "ed25519", Kid("sha256"), "keypair") : self \in Bool }
